@@ -4,18 +4,36 @@
   * stream = buffer: the model's scanner pulls one byte per request (`Scan.readByte`); the translated
     table `Hs.Gen.ScannerRead` shows that the only calls scanner.rs makes on its reader are
     `read_exact` on 1-byte buffers, so chunk boundaries and `Interrupted` are invisible above it.
-  * `parse_grid` is, by definition, the lazy iterator collected (`grid_is_collect`).
+  * `parse_grid` is, by definition, the lazy iterator collected (`grid_is_collect`); on the writer's output the rows
+    `rowNext` hands out one by one are the rows of the parsed grid, in order (`C11_iterator_rows_eq_grid_rows`).
   * the look-ahead of the iterator: the model reports, for every row handed out, how many bytes had
     been pulled from the reader; these counts are string-compared with a counting reader under the
     real iterator on every run (C11 `rows` requests), and checked against the bound "end of the
-    first token after the row + 3".
+    first token after the row + 3".  PROVED here for the writer's own output (`C11_lookahead`, `C11_lookahead_bound`,
+    `C11_token_ends`): for every well-formed top-level grid the count is exactly `min (e + 1) |text|`, `e` the end of
+    the first token of the line after the row; and for ARBITRARY input the structural half
+    (`C11_next_reads_one_token`): after a row's newline a `next()` call skips white space and reads one token
+    (two for `>>`).  "Still-arriving grid" (`C11_rows_available_on_prefix`): the writer's text cut one byte after the
+    first token of a row line and continued by ANY bytes still yields the rows in front of that line, with the same
+    byte counts.
   * re-encode stability is the round trip of C01 applied to the decoder's image; it is decided on the
     implementation by the exact-component oracle on accepted texts (spelled, corpus, accepted mutants).
+    PROVED here in the model: on the writer's image (`C11_stable_on_writer_image`: one normalisation pass is a fixed
+    point), for every decoded value that passes an executable certificate (`C11_stable_partial`,
+    `C11_stable_cert_partial`), for all accepted texts whose value is built from Null/Marker/Remove/NA/Bool/Str/Uri
+    and lists (`C11_stable_plain_partial`); the unrestricted statement `C11_stable` is false on the pinned tree
+    (known finding Z4, `C11_stable_fails_Z4`).
 -/
 import Hs.Model.ZincParse
 import Hs.Gen.ScannerRead
+import Hs.Thm.C01
+import Hs.Lemmas.ZincLazyMain
+import Hs.Lemmas.ZincLazyReenc
+import Hs.Lemmas.ZincLazyBeq
+import Hs.Lemmas.ZincLazyShape
+import Hs.Lemmas.ZincLazyAvail
 namespace Hs.C11
-open Hs Hs.Zinc
+open Hs Hs.Zinc Hs.C01
 
 /-- scanner.rs touches its reader only through `read_exact`, always with a 1-byte buffer -/
 theorem scanner_reads_one_byte_at_a_time :
@@ -51,5 +69,528 @@ theorem rowsLoop_step (fuel depth : Nat) (r : RowState) (cols : List (List Char)
        | .err => .err | .panic => .panic | .diverge => .diverge | .depth => .depth) := by
   rw [rowsLoop]
   rfl
+
+/-! ## The lazy row iterator on the writer's output: rows, order, look-ahead
+
+Helper lemmas: `Hs/Lemmas/ZincLazy{Tok,Row,Grid,Count,Layout,Main}.lean`, on top of the C01 ladder.
+Vocabulary:
+* `pulls F D names total n r0` (`ZincLazyCount`) drives `rowNext` from the iterator state `r0` until it reports
+  the end (at most `n` calls) and returns every row handed out together with `total - r.p.sc.inp.length` for the
+  state `r` returned with that row: the number of bytes pulled from the reader so far.  This is the number the
+  driver prints (`Hs.Drv.Zinc.rowsTrace`) and that is string-compared on every run with a counting reader under
+  the real `RowIterator`.
+* `headerBytes md cols` is the text in front of the first row line; `rowBytes r names single` is the text of a
+  row line without its newline; `rowFirstLen r names` is the length of the FIRST TOKEN of that line: the whole
+  first cell when it is a scalar, its opening bracket when it is a list / dict / nested grid, the `,` when the
+  first cell is missing.
+* `tokEnds names single off rows` lists, for every row, the offset (in the whole text) at which the first token of
+  the FOLLOWING line ends; the line after the last row is the blank line that ends the grid and its newline is the
+  token.  `Layout` (`ZincLazyLayout`, theorem `C11_token_ends`) ties these offsets to the text and to the lexer.
+-/
+
+/-- **C11 look-ahead, general form.**  `g` a top-level grid satisfying C01's `wfV`, `t = encode g`, any recursion
+depth `D` the reader admits and any fuel `F ≥ 4·|t| + 44`.  `gridHeader` returns the header (meta, columns,
+version: the lexical image) and the iterator state `r0`; driving `rowNext` from `r0` hands out exactly the rows of
+`lexImage g`, in order, then the end; and when row `i` is handed out the number of bytes pulled from the reader
+is `min (e_i + 1) |t|`, where `e_i` is the offset of the end of the first token of the line after row `i`
+(`+ 1`: the scanner's current byte; the `min` only matters after the last row, where `e + 1 = |t| + 1`). -/
+theorem C11_lookahead_general (md : OTags) (cols : Cols) (rows : Rows) (ver : List Char)
+    (hwf : wfV (.grid md cols rows ver) = true) (D F : Nat)
+    (hD : D + nestV (.grid md cols rows ver) ≤ 64)
+    (hF : 4 * (encode (.grid md cols rows ver)).length + 44 ≤ F) :
+    ∃ p0 r0,
+      lexRead F (Scan.make (encode (.grid md cols rows ver))) = .ok p0 ∧
+      gridHeader F D p0 = .ok ((lexOTags md, (lexCols cols).toList, ver), r0) ∧
+      ∀ n, rows.length < n →
+        pulls F D cols.names (encode (.grid md cols rows ver)).length n r0 =
+          .ok (List.zip (lexRows rows).toList
+            ((tokEnds cols.names (cols.length == 1) (headerBytes md cols).length rows).map
+              (fun e => min (e + 1) (encode (.grid md cols rows ver)).length))) := by
+  obtain ⟨p0, r0, _, e0, eh, hp, _, _⟩ := lazy_of_wf md cols rows ver hwf D F hD hF
+  rw [lexOTags_eq, lexCols_eq, lexRows_eq]
+  exact ⟨p0, r0, e0, eh, hp⟩
+
+/-- **C11 look-ahead, with the parameters of `parse_grid_iterator` as the driver runs it** (`Hs.Drv.Zinc.rowsTrace`:
+depth 0, fuel `fuelFor |t|`, at most `|t| + 3` calls).  The property's sentence "the iterator hands out each row
+having consumed the stream no further than the first token after that row" reads here: the `i`-th entry of the
+result is (row `i` of `lexImage g`, `min (e_i + 1) |t|`) with `e_i` = `(tokEnds …)[i]` = end of the first token of
+the line after row `i`; see `C11_lookahead_bound` for the inequality and `C11_token_ends` for what `e_i` is. -/
+theorem C11_lookahead (md : OTags) (cols : Cols) (rows : Rows) (ver : List Char)
+    (hwf : wfV (.grid md cols rows ver) = true) (hdep : depthOk (.grid md cols rows ver) = true) :
+    ∃ p0 r0,
+      lexRead (fuelFor (encode (.grid md cols rows ver)).length) (Scan.make (encode (.grid md cols rows ver))) = .ok p0 ∧
+      gridHeader (fuelFor (encode (.grid md cols rows ver)).length) 0 p0
+        = .ok ((lexOTags md, (lexCols cols).toList, ver), r0) ∧
+      pulls (fuelFor (encode (.grid md cols rows ver)).length) 0 cols.names (encode (.grid md cols rows ver)).length
+          ((encode (.grid md cols rows ver)).length + 3) r0 =
+        .ok (List.zip (lexRows rows).toList
+          ((tokEnds cols.names (cols.length == 1) (headerBytes md cols).length rows).map
+            (fun e => min (e + 1) (encode (.grid md cols rows ver)).length))) := by
+  have hn : nestV (.grid md cols rows ver) < 64 := by simpa [depthOk] using hdep
+  obtain ⟨p0, r0, e0, eh, hp⟩ := C11_lookahead_general md cols rows ver hwf 0
+    (fuelFor (encode (.grid md cols rows ver)).length) (by omega) (by unfold fuelFor; omega)
+  refine ⟨p0, r0, e0, eh, hp _ ?_⟩
+  obtain ⟨n, cm, c, rfl, _, _⟩ := gridOk_of_wf md cols rows ver hwf
+  have h1 := rows_length_le (Cols.names (.cons n cm c)) (Cols.length (.cons n cm c) == 1) rows
+  have h2 := encode_grid_split md n cm c rows ver
+  rw [h2]
+  simp only [List.length_append]
+  omega
+
+/-- **the bound**: whatever `pulls` reports at position `i` is row `i` of the image together with a byte count
+`k ≤ e_i + 1` (and `k ≤ |t|`), `e_i` the end of the first token of the line after row `i` -/
+theorem C11_lookahead_bound (md : OTags) (cols : Cols) (rows : Rows) (ver : List Char)
+    (hwf : wfV (.grid md cols rows ver) = true) (hdep : depthOk (.grid md cols rows ver) = true) :
+    ∃ p0 r0 l,
+      lexRead (fuelFor (encode (.grid md cols rows ver)).length) (Scan.make (encode (.grid md cols rows ver))) = .ok p0 ∧
+      gridHeader (fuelFor (encode (.grid md cols rows ver)).length) 0 p0
+        = .ok ((lexOTags md, (lexCols cols).toList, ver), r0) ∧
+      pulls (fuelFor (encode (.grid md cols rows ver)).length) 0 cols.names (encode (.grid md cols rows ver)).length
+          ((encode (.grid md cols rows ver)).length + 3) r0 = .ok l ∧
+      l.length = rows.length ∧
+      ∀ (i : Nat) (row : Tags) (k : Nat), l[i]? = some (row, k) →
+        (lexRows rows).toList[i]? = some row ∧
+        ∃ e, (tokEnds cols.names (cols.length == 1) (headerBytes md cols).length rows)[i]? = some e ∧
+          k ≤ e + 1 ∧ k ≤ (encode (.grid md cols rows ver)).length := by
+  obtain ⟨p0, r0, e0, eh, hp⟩ := C11_lookahead md cols rows ver hwf hdep
+  refine ⟨p0, r0, _, e0, eh, hp, ?_, ?_⟩
+  · rw [List.length_zip, List.length_map, rows_length_tokEnds, lexRows_eq, lexImgR_length]; simp
+  · intro i row k hi
+    obtain ⟨e, he, hrow, hk⟩ := zip_min_bound _ _ _ i (row, k) hi
+    simp only at hrow hk
+    exact ⟨hrow, e, he, by rw [hk]; exact Nat.min_le_left _ _, by rw [hk]; exact Nat.min_le_right _ _⟩
+
+/-- **what the offsets are** (`Layout`, unfolded along the rows): at offset `|headerBytes md cols|` of the text the
+first row line begins; every row line `rowBytes r …` is followed by its newline and then by the next line; after
+the last row comes the blank line `[10]` that ends the text; and ONE `lexRead` by a clean scanner positioned at the
+start of a row line leaves the scanner positioned `rowFirstLen r names` bytes further: that prefix of the line is
+its first token, as the model's lexer itself delimits it.  `tokEnds` adds exactly these lengths:
+`e_i = start of line (i+1) + rowFirstLen r_{i+1} names`, and `e_last = start of the blank line + 1`. -/
+theorem C11_token_ends (md : OTags) (cols : Cols) (rows : Rows) (ver : List Char)
+    (hwf : wfV (.grid md cols rows ver) = true) (hdep : depthOk (.grid md cols rows ver) = true) :
+    Layout (encode (.grid md cols rows ver)) cols.names (cols.length == 1) (headerBytes md cols).length rows := by
+  have hn : nestV (.grid md cols rows ver) < 64 := by simpa [depthOk] using hdep
+  obtain ⟨_, _, _, _, _, _, _, hl⟩ := lazy_of_wf md cols rows ver hwf 0
+    (4 * (encode (.grid md cols rows ver)).length + 44) (by omega) (Nat.le_refl _)
+  exact hl
+
+/-! ### `parse_grid` = the collected iterator, on the writer's output -/
+
+/-- **the rows handed out one by one are the rows of the parsed grid, in order.**  From the SAME iterator state
+`r0`: calling `rowNext` until the end (`pulls`) hands out the list `l`; collecting the iterator (`rowsLoop`, which
+is what `parse_grid` does — `grid_is_collect`) yields the same rows; `parseGrid` builds the grid from them; and
+that grid is what `fromBytes` returns for the text (`C01_wf`). -/
+theorem C11_iterator_rows_eq_grid_rows (md : OTags) (cols : Cols) (rows : Rows) (ver : List Char)
+    (hwf : wfV (.grid md cols rows ver) = true) (hdep : depthOk (.grid md cols rows ver) = true) :
+    ∃ p0 r0 r' l,
+      lexRead (fuelFor (encode (.grid md cols rows ver)).length) (Scan.make (encode (.grid md cols rows ver))) = .ok p0 ∧
+      gridHeader (fuelFor (encode (.grid md cols rows ver)).length) 0 p0
+        = .ok ((lexOTags md, (lexCols cols).toList, ver), r0) ∧
+      pulls (fuelFor (encode (.grid md cols rows ver)).length) 0 cols.names (encode (.grid md cols rows ver)).length
+          ((encode (.grid md cols rows ver)).length + 3) r0 = .ok l ∧
+      rowsLoop (fuelFor (encode (.grid md cols rows ver)).length) 0 r0 cols.names [] = .ok (l.map Prod.fst, r') ∧
+      parseGrid (fuelFor (encode (.grid md cols rows ver)).length + 1) 0 p0
+        = .ok (.grid (lexOTags md) (lexCols cols) (Rows.ofList (l.map Prod.fst)) ver, r'.p) ∧
+      fromBytes (encode (.grid md cols rows ver))
+        = .ok (.grid (lexOTags md) (lexCols cols) (Rows.ofList (l.map Prod.fst)) ver) := by
+  have hn : nestV (.grid md cols rows ver) < 64 := by simpa [depthOk] using hdep
+  obtain ⟨p0, r0, r', e0, eh, _, el, _⟩ := lazy_of_wf md cols rows ver hwf 0
+    (fuelFor (encode (.grid md cols rows ver)).length) (by omega) (by unfold fuelFor; omega)
+  obtain ⟨p0', r0', e0', eh', hp⟩ := C11_lookahead md cols rows ver hwf hdep
+  have hp0 : p0' = p0 := by rw [e0] at e0'; cases e0'; rfl
+  subst hp0
+  have hr0 : r0' = r0 := by
+    rw [lexOTags_eq, lexCols_eq, eh] at eh'; cases eh'; rfl
+  subst hr0
+  have hfst : (List.zip (lexRows rows).toList
+      ((tokEnds cols.names (cols.length == 1) (headerBytes md cols).length rows).map
+        (fun e => min (e + 1) (encode (.grid md cols rows ver)).length))).map Prod.fst = (lexRows rows).toList := by
+    apply List.map_fst_zip
+    rw [List.length_map, rows_length_tokEnds, lexRows_eq]; exact Nat.le_refl _
+  have hnames : (lexImgC cols).toList.map (·.1) = cols.names := lexImgC_names cols
+  refine ⟨p0', r0', r', _, e0, eh', hp, ?_, ?_, ?_⟩
+  · rw [hfst, lexRows_eq]; exact el
+  · rw [hfst, grid_is_collect, eh]
+    simp only [hnames, el, Cols.ofList_toList, Rows.ofList_toList, lexOTags_eq, lexCols_eq, lexRows_eq]
+  · rw [hfst, Rows.ofList_toList]
+    have := C01_wf (.grid md cols rows ver) ⟨hwf, hdep⟩
+    simpa [lexImage] using this
+
+/-! ### rows of a still-arriving grid -/
+
+/-- offset at which the first token of the line of `rn` ends, when the rows `rowsP` precede it -/
+def firstTokEnd (md : OTags) (cols : Cols) (rowsP : Rows) (rn : Tags) : Nat :=
+  (headerBytes md cols).length + (encRows rowsP cols.names (cols.length == 1)).length + rowFirstLen rn cols.names
+
+/-- **rows are available as soon as they have been received.**  `g` a well-formed top-level grid whose rows are
+`rowsP`, then `rn`, then `more`; `e = firstTokEnd …` the end of the first token of the line of `rn`.  Take the first
+`e + 1` bytes of the writer's text (`+ 1`: the byte that ends the token) and let ANY bytes follow — nothing (the
+stream has not delivered more yet), the rest of the grid, garbage.  The header is parsed and the first
+`rowsP.length` calls of `rowNext` hand out exactly the rows `rowsP` (their images), in order, the `j`-th having
+pulled exactly `e_j + 1` bytes (`e_j` = end of the first token of the line after row `j`; `pullsN` = the first calls
+of the iterator with the count `total - inp.length`, as `pulls`).  The right-hand side does not depend on `junk`:
+in particular it is what happens on the complete text (`junk := the rest of it`), so each row is handed out after
+exactly the bytes up to the first token after it, whether or not the rest of the grid has arrived and whatever it
+will turn out to be. -/
+theorem C11_rows_available_on_prefix (md : OTags) (cols : Cols) (rowsP : Rows) (rn : Tags) (more : Rows)
+    (ver : List Char) (hwf : wfV (.grid md cols (Rows.app rowsP (.cons rn more)) ver) = true)
+    (hdep : depthOk (.grid md cols (Rows.app rowsP (.cons rn more)) ver) = true) (junk : List UInt8) :
+    firstTokEnd md cols rowsP rn + 1 ≤ (encode (.grid md cols (Rows.app rowsP (.cons rn more)) ver)).length ∧
+    ∃ p0 r0,
+      lexRead (fuelFor (firstTokEnd md cols rowsP rn + 1 + junk.length))
+        (Scan.make ((encode (.grid md cols (Rows.app rowsP (.cons rn more)) ver)).take
+          (firstTokEnd md cols rowsP rn + 1) ++ junk)) = .ok p0 ∧
+      gridHeader (fuelFor (firstTokEnd md cols rowsP rn + 1 + junk.length)) 0 p0
+        = .ok ((lexOTags md, (lexCols cols).toList, ver), r0) ∧
+      pullsN (fuelFor (firstTokEnd md cols rowsP rn + 1 + junk.length)) 0 cols.names
+          (firstTokEnd md cols rowsP rn + 1 + junk.length) rowsP.length r0 =
+        .ok (List.zip (lexRows rowsP).toList
+          ((tokEndsP cols.names (cols.length == 1) rn (headerBytes md cols).length rowsP).map (· + 1))) := by
+  have hn : nestV (.grid md cols (Rows.app rowsP (.cons rn more)) ver) < 64 := by simpa [depthOk] using hdep
+  obtain ⟨hle, h⟩ := avail_of_wf md cols rowsP rn more ver hwf 0 (by omega)
+  refine ⟨hle, ?_⟩
+  obtain ⟨p0, r0, e0, eh, hp⟩ := h junk (fuelFor (firstTokEnd md cols rowsP rn + 1 + junk.length))
+    (by unfold fuelFor firstTokEnd; omega)
+  rw [lexOTags_eq, lexCols_eq, lexRows_eq]
+  exact ⟨p0, r0, e0, eh, hp⟩
+
+/-- the cut text has the length the fuel and the count above are computed from -/
+theorem C11_cut_length (t junk : List UInt8) (k : Nat) (h : k ≤ t.length) : (t.take k ++ junk).length = k + junk.length := by
+  simp [List.length_take, Nat.min_eq_left h]
+
+/-! ### the look-ahead of one `next()` call on ARBITRARY input
+
+No hypothesis on the text: this is the structural half of the property ("`RowIterator::next` parses exactly one row
+and reads one token ahead to detect the end of the grid"), for every state the iterator can be in. -/
+
+/-- **any input, any iterator state**: when `rowNext` hands out a row, (1) the row's cells were read up to the row's
+newline token (`p2`), (2) the row is the dict of those cells, and (3) all that is read after that newline is: the
+white space that follows (`consume_white_spaces`: blank lines are skipped too), and then — unless the input ends
+there — exactly ONE token; a second token is read only when the first one is `>` inside a nested grid (`>>`).
+The byte bound of `C11_lookahead` is this statement with the positions made explicit, which needs the text to be
+known (there: the writer's output, where no white space follows a row's newline). -/
+theorem C11_next_reads_one_token (f d : Nat) (r : RowState) (cols : List (List Char)) (row : Tags) (r3 : RowState)
+    (h : rowNext (f + 2) d r cols = .ok (some row, r3)) :
+    ∃ (r1 : RowState) (kvs : List (List Char × Val)) (p2 : PS) (sc' : Scan),
+      consumeEnd (f + 1) r = .ok r1 ∧ rowLoop (f + 1) d r1.p cols 0 [] = .ok (kvs, p2) ∧ p2.isChar 10 = true ∧
+      row = dictOf kvs ∧ Scan.consumeWhiteSpaces (f + 1) p2.sc = .ok sc' ∧
+      ((sc'.eof = true ∧ r3.p = { p2 with sc := sc' }) ∨
+       (sc'.eof = false ∧ ∃ p1, lexRead f sc' = .ok p1 ∧
+          (r3.p = p1 ∨
+           (r1.nestedStart = true ∧ PS.isChar p1 62 = true ∧ lexRead f p1.sc = .ok r3.p ∧ r3.nestedEnd = true)))) := by
+  obtain ⟨r1, kvs, p2, e1, e2, h10, hrow, e3⟩ := rowNext_shape (f + 1) d r cols row r3 h
+  obtain ⟨sc', ew, hcase⟩ := consumeEnd_reads f { r1 with p := p2 } r3 h10 e3
+  exact ⟨r1, kvs, p2, sc', e1, e2, h10, hrow, ew, hcase⟩
+
+/-! ## Re-encode stability (model side)
+
+In the model a decoded number / coordinate / timestamp IS the text of its token (`lexImage`; what `f64::from_str`
+and chrono make of that text, and what they print for the result, is the trusted base the harness validates on
+every run with the exact-component oracle `decode (encode (decode t)) = decode t` on accepted texts).  The model's
+writer prints numbers and coordinates from their text; for a timestamp it prints `txt`, a space and `zone` unless
+`tzid` is "UTC", whereas the reader's timestamp carries the whole token in `txt` and empty `tzid` / `zone`.
+`asRead` (`ZincLazyReenc`) marks every timestamp of a decoded value "print the text as read" (`tzid := "UTC"`) and
+changes nothing else; on values without timestamps (`noDT`) it is the identity. -/
+
+/-- the writer prints the reader's image of ANY value exactly like the value itself -/
+theorem C11_encode_lexImage (v : Val) : encode (asRead (lexImage v)) = encode v := by
+  rw [lexImage_eq]; exact enc_image v false
+
+/-- … literally `encode (lexImage v) = encode v` when no timestamp occurs in `v` -/
+theorem C11_encode_lexImage_noDT (v : Val) (h : noDT v = true) : encode (lexImage v) = encode v := by
+  have := C11_encode_lexImage v
+  rwa [lexImage_eq, asRead_noDT v h, ← lexImage_eq] at this
+
+/-- the timestamp caveat is a property of the MODEL's lexical timestamps, not of the code: without `asRead` the
+model's writer appends the (empty) zone name after a space -/
+theorem C11_lexical_timestamp_needs_asRead :
+    encode (lexImage (.dateTime ⟨0, 0, 0, "UTC".toList, "UTC".toList, "2024-02-29T12:34:56Z".toList⟩))
+      = encode (.dateTime ⟨0, 0, 0, "UTC".toList, "UTC".toList, "2024-02-29T12:34:56Z".toList⟩) ++ [32] := by
+  decide +kernel
+
+/-- **one normalisation pass is a fixed point, on the writer's image**: for every well-formed `v`, the value the
+reader returns for the writer's text (`lexImage v`, by `C01_wf`) re-encodes to a text that decodes to itself -/
+theorem C11_stable_on_writer_image (v : Val) (h : wfV v = true ∧ depthOk v = true) :
+    fromBytes (encode v) = .ok (lexImage v) ∧
+    fromBytes (encode (asRead (lexImage v))) = .ok (lexImage v) := by
+  refine ⟨C01_wf v h, ?_⟩
+  rw [C11_encode_lexImage]; exact C01_wf v h
+
+theorem C11_stable_on_writer_image_noDT (v : Val) (h : wfV v = true ∧ depthOk v = true) (hdt : noDT v = true) :
+    fromBytes (encode (lexImage v)) = .ok (lexImage v) := by
+  rw [C11_encode_lexImage_noDT v hdt]; exact C01_wf v h
+
+/-- Re-encode stability for the decoder's values that satisfy `P`: for any text the decoder accepts, encoding the
+decoded value and decoding again yields the same value -/
+def C11_stable_on (P : Val → Prop) : Prop :=
+  ∀ (t : List UInt8) (v : Val), fromBytes t = .ok v → P v → fromBytes (encode (asRead v)) = .ok v
+
+/-- **the property at full strength (model side)**: all accepted texts.  FALSE on the pinned tree: known finding
+Z4, `C11_stable_fails_Z4`. -/
+def C11_stable : Prop := C11_stable_on (fun _ => True)
+
+/-- PARTIAL: stability for every decoded value that is well-formed (`wfV`, `depthOk`) and lexical (a fixed point of
+the reader's image).  What is missing for `C11_stable` is the image invariant of the decoder — "`fromBytes t = .ok v`
+implies these three facts about `v`" — which would need, kind by kind, an analysis of the lexer on ARBITRARY input
+(accepted number / date / zone spellings are well-formed; ids come from the id alphabets; `dictOf` yields ascending
+keys; the header parser yields distinct column names …) and which is false as it stands because of Z4 (a row of
+a single-column grid without its cell violates `rowsShape`).  On the implementation the statement is decided for
+accepted texts (spelled, corpus, accepted mutants) by the exact-component oracle on every run. -/
+theorem C11_stable_partial :
+    C11_stable_on (fun v => wfV (asRead v) = true ∧ depthOk (asRead v) = true ∧ lexImage (asRead v) = v) := by
+  intro t v _ ⟨hwf, hd, hlex⟩
+  have := C01_wf (asRead v) ⟨hwf, hd⟩
+  rwa [hlex] at this
+
+/-- the three hypotheses of `C11_stable_partial` as one executable test on a decoded value: a certificate that can
+be evaluated (in the kernel, or by the driver) for every accepted text of a run -/
+def stableCert (v : Val) : Bool :=
+  wfV (asRead v) && depthOk (asRead v) && beqV (lexImage (asRead v)) v
+
+/-- PARTIAL (same gap as `C11_stable_partial`): a decoded value that passes the executable certificate is stable -/
+theorem C11_stable_cert_partial : C11_stable_on (fun v => stableCert v = true) := by
+  intro t v ht hc
+  simp only [stableCert, Bool.and_eq_true] at hc
+  exact C11_stable_partial t v ht ⟨hc.1.1, hc.1.2, beqV_sound _ _ hc.2⟩
+
+/-- values built from the kinds on which the reader and the writer impose no condition: Null, Remove, Marker, NA,
+Bool, Str (any text), Uri (any text), and lists of such -/
+def plainV : Val → Bool
+  | .null => true | .remove => true | .marker => true | .na => true | .bool _ => true
+  | .str _ => true | .uri _ => true
+  | .list xs => plainVs xs
+  | _ => false
+where plainVs : Vals → Bool
+  | .nil => true
+  | .cons v vs => plainV v && plainVs vs
+
+mutual
+theorem plain_facts : ∀ v : Val, plainV v = true → wfV v = true ∧ asRead v = v ∧ lexImg v = v
+  | .null, _ => ⟨rfl, rfl, rfl⟩
+  | .remove, _ => ⟨rfl, rfl, rfl⟩
+  | .marker, _ => ⟨rfl, rfl, rfl⟩
+  | .na, _ => ⟨rfl, rfl, rfl⟩
+  | .bool _, _ => ⟨rfl, rfl, rfl⟩
+  | .str _, _ => ⟨rfl, rfl, rfl⟩
+  | .uri _, _ => ⟨rfl, rfl, rfl⟩
+  | .list xs, h => by
+    simp only [plainV] at h
+    obtain ⟨h1, h2, h3⟩ := plains_facts xs h
+    exact ⟨by simpa [wfV] using h1, by simp [asRead, h2], by simp [lexImg, h3]⟩
+  | .num _, h | .ref _ _, h | .sym _, h | .date _, h | .time _, h | .dateTime _, h | .coord _ _, h
+  | .xstr _ _, h | .dict _, h | .grid _ _ _ _, h => by simp [plainV] at h
+theorem plains_facts : ∀ xs : Vals, plainV.plainVs xs = true → wfVs xs = true ∧ asReads xs = xs ∧ lexImgs xs = xs
+  | .nil, _ => ⟨rfl, rfl, rfl⟩
+  | .cons v vs, h => by
+    simp only [plainV.plainVs, Bool.and_eq_true] at h
+    obtain ⟨a1, a2, a3⟩ := plain_facts v h.1
+    obtain ⟨b1, b2, b3⟩ := plains_facts vs h.2
+    exact ⟨by simp [wfVs, a1, b1], by simp [asReads, a2, b2], by simp [lexImgs, a3, b3]⟩
+end
+
+/-- PARTIAL: re-encode stability for ALL accepted texts whose value is plain (no hypothesis on the text or on the
+payloads: any Str, any Uri, nested lists up to the reader's depth limit).  Missing for the other kinds: the image
+invariant described at `C11_stable_partial`. -/
+theorem C11_stable_plain_partial : C11_stable_on (fun v => plainV v = true ∧ depthOk v = true) := by
+  intro t v _ ⟨hp, hd⟩
+  obtain ⟨hwf, ha, hl⟩ := plain_facts v hp
+  rw [ha]
+  have := C01_wf v ⟨hwf, hd⟩
+  rwa [lexImage_eq, hl] at this
+
+/-! ### known finding Z4: the unrestricted statement is false on the pinned tree -/
+
+/-- `ver:"3.0"`, one column `a`, one row line `,` (no cell), blank line -/
+def z4Text : List UInt8 := bytesOfAscii "ver:\"3.0\"\na\n,\n\n"
+/-- what the reader returns for it: a row without its cell -/
+def z4Val : Val := .grid .none (.cons ['a'] .none .nil) (.cons .nil .nil) ['3', '.', '0']
+/-- what comes back after one re-encode: the missing cell of a single-column grid is written `N` -/
+def z4Val' : Val := .grid .none (.cons ['a'] .none .nil) (.cons (.cons ['a'] .null .nil) .nil) ['3', '.', '0']
+
+theorem z4_accepted : fromBytes z4Text = .ok z4Val := isOkEq_sound (by decide +kernel)
+theorem z4_reencoded : encode (asRead z4Val) = bytesOfAscii "ver:\"3.0\"\na\nN\n\n" := by decide +kernel
+theorem z4_redecoded : fromBytes (encode (asRead z4Val)) = .ok z4Val' := isOkEq_sound (by decide +kernel)
+
+/-- **Z4 is a counterexample to the unrestricted statement** (kernel-checked witness) -/
+theorem C11_stable_fails_Z4 : ¬ C11_stable := by
+  intro h
+  have h1 := h z4Text z4Val z4_accepted trivial
+  rw [z4_redecoded] at h1
+  simp [z4Val, z4Val'] at h1
+
+/-! ## The hypotheses are satisfiable: concrete non-trivial inputs -/
+
+section examples
+
+def exMd : OTags := .some (.cons "dis".toList (.str "Site é".toList) (.cons "hisRef".toList (.ref "h".toList none)
+  (.cons "m".toList .marker .nil)))
+def exCols : Cols :=
+  .cons "a".toList (.some (.cons "dis".toList (.str "A".toList) (.cons "unitRef".toList (.ref "u".toList none) .nil)))
+    (.cons "b".toList .none (.cons "c".toList (.some (.cons "x".toList .marker .nil)) .nil))
+/-- first cells: a nested grid (first token `<`), a Ref with display name (first token `@r "Room 1"`, a space
+inside), a missing cell (first token `,`), a timestamp with zone name, an empty row -/
+def exRows : Rows :=
+  .cons (.cons "a".toList exInner (.cons "c".toList
+      (.list (.cons (.dict (.cons "k".toList (.uri "http://x/`".toList) .nil)) (.cons (.coord ⟨0, "-1.5".toList⟩ ⟨0, "3".toList⟩)
+        (.cons (.xstr "Bin".toList "a\"b".toList) .nil)))) .nil))
+  (.cons (.cons "a".toList (.ref "r".toList (some "Room 1".toList)) (.cons "b".toList exNum .nil))
+  (.cons (.cons "b".toList .na .nil)
+  (.cons (.cons "a".toList (.dateTime ⟨0, 0, -18000, "New_York".toList, "America/New_York".toList,
+      "2024-02-29T12:34:56.789-05:00".toList⟩) (.cons "c".toList (.str "x,\ny".toList) .nil))
+  (.cons .nil .nil))))
+def exVer : List Char := "3.0".toList
+def exG : Val := .grid exMd exCols exRows exVer
+
+/-- the text: 293 bytes, header 63 bytes -/
+example : (encode exG).length = 293 ∧ (headerBytes exMd exCols).length = 63 := by decide +kernel
+
+theorem exG_wf : wfV exG = true ∧ depthOk exG = true := by decide +kernel
+example : 1 + nestV exG ≤ 64 := by decide +kernel
+
+/-- `C11_lookahead` on the example … -/
+example := C11_lookahead exMd exCols exRows exVer exG_wf.1 exG_wf.2
+example := C11_lookahead_general exMd exCols exRows exVer exG_wf.1 1 5000 (by decide +kernel) (by decide +kernel)
+example := C11_lookahead_bound exMd exCols exRows exVer exG_wf.1 exG_wf.2
+example := C11_token_ends exMd exCols exRows exVer exG_wf.1 exG_wf.2
+example := C11_iterator_rows_eq_grid_rows exMd exCols exRows exVer exG_wf.1 exG_wf.2
+
+/-- … the ends of the first tokens of the lines after rows 0‥4, … -/
+example : tokEnds exCols.names (exCols.length == 1) (headerBytes exMd exCols).length exRows
+    = [226, 237, 279, 290, 293] := by decide +kernel
+/-- … and the byte counts the theorem gives (the last one is capped by the length of the text) -/
+example : (tokEnds exCols.names (exCols.length == 1) (headerBytes exMd exCols).length exRows).map
+    (fun e => min (e + 1) (encode exG).length) = [227, 238, 280, 291, 293] := by decide +kernel
+
+/-- the same numbers by running the model's iterator on the text in the kernel (no theorem involved) -/
+example :
+    (match lexRead (fuelFor (encode exG).length) (Scan.make (encode exG)) with
+     | .ok p0 =>
+       match gridHeader (fuelFor (encode exG).length) 0 p0 with
+       | .ok (_, r0) =>
+         match pulls (fuelFor (encode exG).length) 0 exCols.names (encode exG).length ((encode exG).length + 3) r0 with
+         | .ok l => l.map Prod.snd
+         | _ => []
+       | _ => []
+     | _ => []) = [227, 238, 280, 291, 293] := by decide +kernel
+
+/-- `C11_rows_available_on_prefix`: the example grid split after its second row; the text is cut one byte after
+the first token (`,`) of the third line and continued by an unterminated string … -/
+def exP : Rows := .cons (.cons "a".toList exInner (.cons "c".toList
+      (.list (.cons (.dict (.cons "k".toList (.uri "http://x/`".toList) .nil)) (.cons (.coord ⟨0, "-1.5".toList⟩ ⟨0, "3".toList⟩)
+        (.cons (.xstr "Bin".toList "a\"b".toList) .nil)))) .nil))
+  (.cons (.cons "a".toList (.ref "r".toList (some "Room 1".toList)) (.cons "b".toList exNum .nil)) .nil)
+def exN : Tags := .cons "b".toList .na .nil
+def exMore : Rows :=
+  .cons (.cons "a".toList (.dateTime ⟨0, 0, -18000, "New_York".toList, "America/New_York".toList,
+      "2024-02-29T12:34:56.789-05:00".toList⟩) (.cons "c".toList (.str "x,\ny".toList) .nil))
+  (.cons .nil .nil)
+example : Rows.app exP (.cons exN exMore) = exRows := rfl
+def exJunk : List UInt8 := "\"never closed".toUTF8.toList
+example := C11_rows_available_on_prefix exMd exCols exP exN exMore exVer exG_wf.1 exG_wf.2 exJunk
+example : firstTokEnd exMd exCols exP exN = 237 ∧
+    (tokEndsP exCols.names (exCols.length == 1) exN (headerBytes exMd exCols).length exP).map (· + 1) = [227, 238] := by
+  decide +kernel
+/-- … the same by running the model on the cut text in the kernel: two rows after 227 and 238 bytes (the third
+call then fails on the unterminated string: that row has not arrived) -/
+example :
+    (match lexRead (fuelFor (238 + exJunk.length)) (Scan.make ((encode exG).take 238 ++ exJunk)) with
+     | .ok p0 =>
+       match gridHeader (fuelFor (238 + exJunk.length)) 0 p0 with
+       | .ok (_, r0) =>
+         match pullsN (fuelFor (238 + exJunk.length)) 0 exCols.names (238 + exJunk.length) 2 r0 with
+         | .ok l => l.map Prod.snd
+         | _ => []
+       | _ => []
+     | _ => []) = [227, 238] := by decide +kernel
+
+/-- re-encode stability on the writer's image of the example (it contains timestamps: `asRead`) … -/
+example := C11_stable_on_writer_image exG exG_wf
+/-- … and without `asRead` on a grid without timestamps -/
+example : noDT exInner = false := by decide +kernel
+example : noDT exZeroRows = true := by decide +kernel
+example := C11_stable_on_writer_image_noDT exZeroRows (by decide +kernel) (by decide +kernel)
+example := C11_encode_lexImage_noDT exZeroRows (by decide +kernel)
+
+/-- `C11_stable_partial` on a text that is NOT writer output (spaces around separators, a trailing comma in a
+list, `Z UTC`, a number with a trailing zero): the decoded value satisfies the three hypotheses -/
+def exSpelled : List UInt8 :=
+  "ver:\"3.0\"   dis:\"x\" m\nid , n,t\n@a \"A\" , 1.50kW ,  [1, 2 ,T,]\n  ,2024-02-29T12:34:56Z UTC,`u`\n\n".toUTF8.toList
+def exSpelledVal : Val :=
+  match fromBytes exSpelled with
+  | .ok v => v
+  | _ => .null
+example : (fromBytes exSpelled).isOk = true := by decide +kernel
+theorem exSpelled_ok : fromBytes exSpelled = .ok exSpelledVal := by
+  have h : (fromBytes exSpelled).isOk = true := by decide +kernel
+  unfold exSpelledVal
+  cases hx : fromBytes exSpelled <;> simp_all [Res.isOk]
+example : wfV (asRead exSpelledVal) = true ∧ depthOk (asRead exSpelledVal) = true := by decide +kernel
+example : lexImage (asRead exSpelledVal) = exSpelledVal := beqV_sound _ _ (by decide +kernel)
+example : fromBytes (encode (asRead exSpelledVal)) = .ok exSpelledVal :=
+  C11_stable_partial exSpelled exSpelledVal exSpelled_ok
+    ⟨by decide +kernel, by decide +kernel, beqV_sound _ _ (by decide +kernel)⟩
+
+example : fromBytes (encode (asRead exSpelledVal)) = .ok exSpelledVal :=
+  C11_stable_cert_partial exSpelled exSpelledVal exSpelled_ok (by decide +kernel)
+
+/-- `C11_next_reads_one_token` on a text that is not writer output: spaces around the comma, a blank line and a
+line of spaces between the rows (skipped by `consume_end`), no blank line at the end -/
+def exLoose : List UInt8 := "ver:\"3.0\"\na,b\n1 , 2\n\n  \n3,4\n".toUTF8.toList
+theorem exLoose_next : ∃ r row r3, rowNext (398 + 2) 0 r [['a'], ['b']] = .ok (some row, r3) := by
+  have hdec : (match lexRead 400 (Scan.make exLoose) with
+     | .ok p0 =>
+       match gridHeader 400 0 p0 with
+       | .ok (_, r0) =>
+         match rowNext (398 + 2) 0 r0 [['a'], ['b']] with
+         | .ok (some _, r1) =>
+           (match rowNext (398 + 2) 0 r1 [['a'], ['b']] with
+            | .ok (some _, _) => true
+            | _ => false)
+         | _ => false
+       | _ => false
+     | _ => false) = true := by decide +kernel
+  cases h1 : lexRead 400 (Scan.make exLoose) with
+  | ok p0 =>
+    rw [h1] at hdec
+    simp only at hdec
+    cases h2 : gridHeader 400 0 p0 with
+    | ok x =>
+      obtain ⟨hd, r0⟩ := x
+      rw [h2] at hdec
+      simp only at hdec
+      cases h3 : rowNext (398 + 2) 0 r0 [['a'], ['b']] with
+      | ok y =>
+        obtain ⟨o, r1⟩ := y
+        cases o with
+        | some row => exact ⟨r0, row, r1, h3⟩
+        | none => rw [h3] at hdec; simp at hdec
+      | err => rw [h3] at hdec; simp at hdec
+      | panic => rw [h3] at hdec; simp at hdec
+      | diverge => rw [h3] at hdec; simp at hdec
+      | depth => rw [h3] at hdec; simp at hdec
+    | err => rw [h2] at hdec; simp at hdec
+    | panic => rw [h2] at hdec; simp at hdec
+    | diverge => rw [h2] at hdec; simp at hdec
+    | depth => rw [h2] at hdec; simp at hdec
+  | err => rw [h1] at hdec; simp at hdec
+  | panic => rw [h1] at hdec; simp at hdec
+  | diverge => rw [h1] at hdec; simp at hdec
+  | depth => rw [h1] at hdec; simp at hdec
+example : True := by
+  obtain ⟨r, row, r3, h⟩ := exLoose_next
+  have := C11_next_reads_one_token 398 0 r [['a'], ['b']] row r3 h
+  trivial
+
+/-- `C11_stable_plain_partial`: a list with a Str containing every kind of escape and a Uri with a backquote,
+written with extra spaces and a trailing comma -/
+def exPlainText : List UInt8 := "[ \"a\\t\\\"\\\\\\$\\u00e9\" , `http://x/\\`y`,[N,T, ],M ,]".toUTF8.toList
+def exPlainVal : Val :=
+  .list (.cons (.str "a\t\"\\$é".toList) (.cons (.uri "http://x/`y".toList)
+    (.cons (.list (.cons .null (.cons (.bool true) .nil))) (.cons .marker .nil))))
+theorem exPlain_ok : fromBytes exPlainText = .ok exPlainVal := isOkEq_sound (by decide +kernel)
+example : fromBytes (encode (asRead exPlainVal)) = .ok exPlainVal :=
+  C11_stable_plain_partial exPlainText exPlainVal exPlain_ok ⟨by decide +kernel, by decide +kernel⟩
+
+end examples
 
 end Hs.C11
